@@ -87,6 +87,7 @@ def tableFn (t : List (Nat × Nat)) (ty : Nat) : Option Nat :=
 def parseOsz (s : String) : Option (Nat → Option Nat) :=
   match s with
   | "none" => some (fun _ => none)
+  | "syn" => some (tableFn [(40, 0), (41, 1), (42, 2), (43, 3)])
   | "ddnet" => some (tableFn Tw.Gen.Snap.objSize_ddnet)
   | "tw06" => some (tableFn Tw.Gen.Snap.objSize_tw06)
   | "tw07" => some (tableFn Tw.Gen.Snap.objSize_tw07)
@@ -128,7 +129,9 @@ def fmtOptInts (r : Option (List Int)) : String :=
 /-- is the pair inside the domain on which the C++ reference is defined? -/
 def refDomain (osz : Nat → Option Nat) (a b : RawSnap) : Bool :=
   a.items.all (fun p => 0 ≤ p.1) && b.items.all (fun p => 0 ≤ p.1) &&
-  decide (SizesAgree a b) && decide (SizesOk osz b.items)
+  decide (SizesAgree a b) && decide (SizesOk osz b.items) &&
+  -- a pre-agreed size of 0 means "unset" in the reference's table
+  (a.items ++ b.items).all (fun p => osz (keyType p.1) != some 0)
 
 /-! ### op `pair` -/
 
@@ -350,7 +353,7 @@ def opBuild (toks : List String) : String :=
 
 /-- the universe's keys: a type with a pre-agreed size in the `ddnet` table (13 ↦ 2), a type
 `≥ 0x8000`, a registry item, an extended type -/
-def uniKeys : List (Nat × Nat) := [(13, 1), (32769, 7), (0, 16384), (16384, 2)]
+def uniKeys : List (Nat × Nat) := [(13, 1), (32769, 7), (0, 16384), (16384, 2), (40, 3), (42, 9)]
 def uniVals : List Int := [0, 1, -1, -2147483648, 2147483647]
 
 /-- state `c` of one key: `0` = absent, otherwise a length 0..3 and values (base-5 digits) -/
